@@ -15,10 +15,134 @@ fn op(t: i64, c: &str, p: &[i64], k: i64, v: i64) -> serde_json::Value {
     json!({"a":"op","t":t,"c":c,"p":p,"k":k,"v":v,"lk":"U","lo":0,"hk":"U","hi":0})
 }
 
+/// C16 growth: a file created at the minimum size is driven across several 8 MiB extension
+/// steps; near every step the transactions are sized so that the high-water mark creeps over
+/// the end of the file a few pages at a time (so that it also lands exactly one page beyond).
+/// jvh workload --kind creep --pagesize P --crossings N --out T
+fn creep(a: &Args) -> i32 {
+    use jammdb::OpenOptions;
+    let ps = a.n("pagesize", 3000) as u64;
+    let crossings = a.n("crossings", 3);
+    let out = a.s("out", "/dev/stdout");
+    let dir = crate::scratch_dir();
+    let path = dir.join("creep.db");
+    let _ = std::fs::remove_file(&path);
+    rec::start(&out, None, ps, false);
+    rec::install_hook_recorder();
+    iohook::set_target(&path);
+    rec::emit(json!({"ev":"hdr","kind":"creep","pagesize":ps}));
+    rec::emit(json!({"ev":"reset","h":0,"pagesize":ps,"np0":4,"decode":false}));
+    let strict = a.n("strict", 0) != 0;
+    let db = match std::panic::catch_unwind(|| OpenOptions::new().pagesize(ps).num_pages(4).strict_mode(strict).open(&path)) {
+        Ok(Ok(db)) => db,
+        other => {
+            rec::emit(json!({"ev":"opened","h":0,"res":["err", format!("{:?}", other.is_ok())]}));
+            rec::finish();
+            println!("{}", json!({"bad": 1, "what": "open failed"}));
+            return 0;
+        }
+    };
+    rec::emit(json!({"ev":"opened","h":0,"res":["ok"]}));
+    let np_now = |path: &std::path::Path| -> (u64, u64) {
+        let data = std::fs::read(path).unwrap_or_default();
+        let m0 = crate::parse::decode_meta(&data[..(ps as usize).min(data.len())]);
+        let m1 = data.get(ps as usize..2 * ps as usize).and_then(crate::parse::decode_meta);
+        let metas = [m0, m1];
+        let np = crate::parse::choose(&metas).map(|c| metas[c].as_ref().unwrap().num_pages).unwrap_or(0);
+        (np, data.len() as u64)
+    };
+    let mut written: Vec<(Vec<u8>, usize, u8)> = Vec::new();
+    let mut crossed = 0;
+    let mut bad: Vec<String> = Vec::new();
+    let mut i = 0u64;
+    let (_, mut last_len) = np_now(&path);
+    while crossed < crossings && i < 3000 {
+        crate::tick();
+        i += 1;
+        let (np, flen) = np_now(&path);
+        if flen != last_len {
+            crossed += 1;
+            last_len = flen;
+            rec::emit(json!({"ev":"extended","n":crossed,"file_bytes":flen,"num_pages":np}));
+        }
+        let boundary = flen / ps; // pages that fit the file
+        let d = (boundary + 1).saturating_sub(np);
+        // every other big step needs more than one 8 MiB extension at once
+        let jump = if a.n("jump", 1) != 0 && crossed % 2 == 1 { (8 * 1024 * 1024 * 7 / 5) / ps } else { 0 };
+        let pages: u64 = if d > 60 { d - 30 + jump } else { 1 + (i % 6) };
+        let len = (pages * ps).saturating_sub(200 + (i % 7) * 13) as usize;
+        let fill = b'a' + (i % 26) as u8;
+        let key = format!("k{:06}", i).into_bytes();
+        let r = std::panic::catch_unwind(std::panic::AssertUnwindSafe(|| -> Result<(), jammdb::Error> {
+            // one bucket per value: a later commit does not rewrite the leaf of an earlier value
+            let tx = db.tx(true)?;
+            {
+                let b = tx.create_bucket(key.clone())?;
+                b.put("v", vec![fill; len])?;
+            }
+            tx.commit()
+        }));
+        rec::emit(json!({"ev":"commit","t":i,"res": match &r { Ok(Ok(())) => json!(["ok"]), Ok(Err(e)) => json!(["err", format!("{}", e)]), Err(_) => json!(["panic"]) }}));
+        match r {
+            Ok(Ok(())) => written.push((key, len, fill)),
+            Ok(Err(e)) => {
+                bad.push(format!("commit {}: {}", i, e));
+                break;
+            }
+            Err(_) => {
+                bad.push(format!("commit {} panicked: {}", i, crate::exec::LAST_PANIC.with(|p| p.borrow().clone())));
+                break;
+            }
+        }
+        // read everything back through the same handle every few commits (the map must cover it)
+        if i % 5 == 0 || d <= 8 {
+            let r = std::panic::catch_unwind(std::panic::AssertUnwindSafe(|| -> Result<(), String> {
+                let tx = db.tx(false).map_err(|e| format!("{}", e))?;
+                for (k, len, fill) in written.iter().rev().take(6) {
+                    let b = tx.get_bucket(k.clone()).map_err(|e| format!("{}", e))?;
+                    match b.get_kv("v") {
+                        Some(kv) if kv.value().len() == *len && kv.value().iter().all(|x| x == fill) => {}
+                        _ => return Err(format!("value of {:?} wrong after commit {}", String::from_utf8_lossy(k), i)),
+                    }
+                }
+                Ok(())
+            }));
+            match r {
+                Ok(Ok(())) => {}
+                Ok(Err(e)) => {
+                    bad.push(e);
+                    break;
+                }
+                Err(_) => {
+                    bad.push(format!("read-back after commit {} panicked: {}", i, crate::exec::LAST_PANIC.with(|p| p.borrow().clone())));
+                    break;
+                }
+            }
+        }
+    }
+    if bad.is_empty() {
+        if let Err(e) = db.check() {
+            bad.push(format!("DB::check: {}", e));
+        }
+    }
+    let (np, flen) = np_now(&path);
+    rec::emit(json!({"ev":"closing"}));
+    drop(db);
+    rec::emit(json!({"ev":"closed","file_bytes":flen,"num_pages":np,"commits":i}));
+    rec::finish();
+    iohook::deactivate();
+    let _ = std::fs::remove_dir_all(&dir);
+    println!("{}", json!({"txs": i, "bad": bad.len(), "problems": bad, "file_bytes": flen, "crossed": crossed, "num_pages": np}));
+    0
+}
+
 /// jvh workload --kind fixed|varsize|delins|bucketdel --cycles C --profile P --nkeys K --nvals V
 ///              --out T [--reopen-every N] [--reader-from a --reader-to b] [--num-pages N]
 pub fn workload(a: &Args) -> i32 {
     let kind = a.s("kind", "fixed");
+    if kind == "creep" {
+        return creep(a);
+    }
     let cycles = a.n("cycles", 20);
     let nk = a.n("nkeys", 32);
     let nv = a.n("nvals", 6);
